@@ -60,6 +60,10 @@ STALL_REQS = [
     (b"gemini://example.org/\xff\xfe\x80?\xc3\r\n", "gemini-invalid-utf8", None),
     (b"titan://example.org/b;size=9;mime=application/octet-stream\r\n\xff\x00\xfe\x80\xc3\x28\x00\xe2\x82", "titan-binary", 9),
     (("gemini://example.org/" + "a" * 42 + "\u20ac\u20ac/x\r\n").encode(), "gemini-long-multibyte-at-64", None),
+    # the time a silent uploader is given does not grow with the size it announces
+    (b"titan://example.org/big;size=10000000000000;mime=application/octet-stream\r\nfirst bytes of a body that never comes", "titan-announces-10TB", 10**13),
+    (b"titan://example.org/big;size=5242880\r\n" + b"x" * 100, "titan-announces-5MiB", 5 << 20),
+    (b"titan://example.org/big;size=65536\r\n", "titan-announces-64KiB-sends-nothing", 65536),
 ]
 
 
@@ -103,6 +107,8 @@ def run_l1(ctx):
                 titan = label.startswith("titan")
                 if titan and not uploads:
                     complete_at = data.find(b"\r\n") + 2  # refused with 50 right after the line
+                elif titan and size is not None:
+                    complete_at = data.find(b"\r\n") + 2 + size  # (beyond len(data) when the representative never completes)
                 else:
                     complete_at = len(data)
                 le = data.find(b"\r\n") + 2
